@@ -119,7 +119,7 @@ func (*V1) WriteRecord(buf []byte, startOffset uint32, _ uint32, payload []byte)
 }
 
 func (*V1) WriteIndex(path string, index []byte) error {
-	idxFile, err := os.OpenFile(path, os.O_CREATE|os.O_RDWR, 0644)
+	idxFile, err := os.OpenFile(path, os.O_CREATE|os.O_RDWR|os.O_TRUNC, 0644)
 	if err != nil {
 		return errors.Wrapf(err, "failed to open index file %s", path)
 	}
